@@ -204,16 +204,15 @@ theorem payloadAcc_facts {k : Kind} {m : Xml} (hp : payloadAccOk k m = true) :
 
 /-! ### the merges on the `roCreate` children -/
 
-theorem accOk_mergeRc (k : Kind) (rc base : Xml) (mid : Option PyExc) (hok : rcOk rc.kids = true)
+theorem accOk_mergeRc (k : Kind) (rc base : Xml) (mid : Option PyExc)
     (h : accOk rc.kids)
     (h1 : ∀ x ∈ storyPayload k base, storyTimesOk x = true)
     (h3 : k = .MetaDataReplace → ∀ s ∈ base.kids, s.tag = "story" → storyTimesOk s = true) :
     accOk (mergeRc k rc base mid).kids := by
-  obtain ⟨hw, hwi⟩ := wf_of_rcOk hok
   by_cases hsl : k.isStoryLevel = true
-  · exact accOk_of_edit h (storyLevel_edit k rc base mid hsl hw) h1
+  · exact accOk_of_edit h (storyLevel_edit k rc base mid hsl) h1
   · by_cases hil : k.isItemLevel = true
-    · exact accOk_of_itemEdit h (itemLevel_edit k rc base mid hil hw hwi)
+    · exact accOk_of_itemEdit h (itemLevel_edit k rc base mid hil)
     · cases k <;> first | (simp [Kind.isStoryLevel] at hsl; done) | (simp [Kind.isItemLevel] at hil; done) | skip
       case MetaDataReplace =>
         simp only [mergeRc]
@@ -258,7 +257,7 @@ theorem wfAcc_preserved' (d m : Xml) (k : Kind) (h : WfAcc d = true) (hs : shape
     by_cases hk : k.editsRc = true
     · rw [addK_editsRc k d m rc base hk hc' hrc hb]
       exact ⟨_, rcOf_setRcKids d rc _ hrc, by
-        simpa using accOk_mergeRc k rc base _ hok hacc h1 h3⟩
+        simpa using accOk_mergeRc k rc base _ hacc h1 h3⟩
     · obtain ⟨j, hj, hget⟩ := rcIndex_of_rcOf hrc
       cases k <;> first | (simp [Kind.editsRc] at hk; done) | skip
       · have hadd : (addK .RunningOrder d m).ro = d := by
